@@ -35,7 +35,7 @@ def models(tier, seed):
 
 def required_tags(tier):
     return ['real', 'complex:cartesian', 'complex:polar_rad', 'complex:polar_deg', 'sf_complex', 'sf_time', 'sf_time:sin', 'sf_time:hertz', 'reverse', 'voltage', 'current', 'power',
-            'potential', 'reversed_source', 'judged', 'declarative']
+            'potential', 'reversed_source', 'judged', 'declarative', 'reverse_omitted']
 
 
 def label_text(el):
@@ -263,7 +263,12 @@ def post(events, tier, seed, ctx):
     for k, ev in enumerate(events):
         v = verdicts[k + 1]['v']
         counts[v] = counts.get(v, 0) + 1
-        if v != 'ok':
+        if v.startswith('skipped'):
+            r = CaseResult(case_id=f'ann{k}')
+            r.skipped = v
+            r.nontrivial = False
+            yield (json.dumps({'annotation_event': ev}), r)
+        elif v != 'ok':
             r = CaseResult(case_id=f'ann{k}')
             r.observations = 1
             r.mismatches.append({'what': ev['what'], 'got': repr(ev['text']), 'want': f'value {ev["sgn"] * ev["m"]}e{ev["e10"]} at precision {ev["p"]}', 'signature': f'annotation:{v}', 'detail': f'case {ev["case"]}'})
@@ -295,6 +300,12 @@ def replay_declarative(case, ctx):
     volt = [{'name': names[c['id']], 'reverse': bool((h >> (j + 2)) % 2)} for j, c in enumerate(netlist)]
     curr = [{'name': names[c['id']], 'reverse': bool((h >> (j + 5)) % 2)} for j, c in enumerate(netlist)]
     powr = [{'name': names[c['id']], 'reverse': bool((h >> (j + 7)) % 2)} for j, c in enumerate(netlist)]
+    if (h >> 11) % 4:          # an entry without 'reverse' means: not reversed (the default of the draw functions)
+        for lst in (volt, curr, powr):
+            for d in lst:
+                if not d['reverse']:
+                    d.pop('reverse')
+                    tg.add('reverse_omitted')
     sol_def = {'type': kind, 'precision': p, 'voltages': volt, 'currents': curr, 'powers': powr, 'w': 5.0, 'bogus': 1}
     import matplotlib.pyplot as plt
     try:
@@ -321,10 +332,10 @@ def replay_declarative(case, ctx):
     evs = []
     for j, c in enumerate(netlist):
         for quantity, labs, req, val, unit_, scale in (('voltage', vl, volt, U[j], 'V', vscale), ('current', cl, curr, I[j], 'A', iscale), ('power', pl, powr, None, 'W', vscale * iscale)):
-            sgn = -1 if req[j]['reverse'] else 1
+            sgn = -1 if req[j].get('reverse') else 1
             text = label_text(labs[j])
-            what = f'{ctxs} {quantity}({req[j]["name"]!r}, reverse={req[j]["reverse"]})'
-            tg.update([quantity] + (['reverse'] if req[j]['reverse'] else []))
+            what = f'{ctxs} {quantity}({req[j]["name"]!r}, reverse={req[j].get("reverse")})'
+            tg.update([quantity] + (['reverse'] if req[j].get('reverse') else []))
             r.observations += 1
             if kind == 'complex':
                 v = (val * factor * sgn) if val is not None else U[j] * I[j].conjugate() * factor * factor * sgn
